@@ -176,7 +176,8 @@ func (d *DKG) ProcessDeals() ([]*dkg.Response, error) {
 	sort.Slice(deals, func(i, j int) bool { return deals[i].Index < deals[j].Index })
 	for _, deal := range deals {
 		if deal.Index == uint32(d.ParticipantID) {
-			continue
+			// own deals are never stored (see handleStateDkgResponsesAwaitConfirmations): this one came from somebody else
+			return nil, fmt.Errorf("a deal claims the dealer index of the participant it is addressed to (%d)", deal.Index)
 		}
 		resp, err := d.instance.ProcessDeal(deal)
 		if err != nil {
